@@ -175,6 +175,10 @@ class Hist:
                         v = r.choice([0.0, 0.5, 1.0]) if key != "Optimizer.clip_threshold" else 0.0
                     else:
                         v = f32(r.choice([0.0, 0.1, 1.0, 2.0]))
+                    if key in ("Optimizer.l2_strength", "Optimizer.clip_threshold") and r.random() < 0.35:
+                        # set_configs / load store what the file says, the setters' range checks do not apply: a negative
+                        # strength or threshold means "off" (decay and clipping act only when positive)
+                        v = -0.5 if self.exact else f32(-r.choice([0.5, 0.01, 2.0]))
                     self.lines.append("cfg 0 %s %s" % (key, f2x(v)))
                 self.lines.append("state 0")
             elif x < 0.9:
